@@ -76,6 +76,7 @@ pub struct Block {
 pub enum Case {
     Seq(Seq),
     Block(Block),
+    Exit(crate::exitpaths::ExitCase),
 }
 
 #[derive(Clone, Copy, Debug, PartialEq, Eq)]
@@ -189,21 +190,15 @@ impl Model {
                     }
                 }
             }
-            Kind::Starvation | Kind::ProbeUnder | Kind::ProbeMissing => {
-                let k = match kind {
-                    Kind::Starvation => "starvation",
-                    Kind::ProbeUnder => "slot-never-freed",
-                    _ => "room-never-freed",
-                };
-                match self.taint_lost {
-                    Some(t) => format!("lost-lock:{}:{}", t, k),
-                    None => match kind {
-                        Kind::Starvation => "starvation:pending-request-never-granted".to_string(),
-                        Kind::ProbeUnder => "slot-leak:fewer-rooms-at-once-than-limit".to_string(),
-                        _ => "room-stuck:free-room-never-granted".to_string(),
-                    },
-                }
-            }
+            Kind::Starvation | Kind::ProbeUnder | Kind::ProbeMissing => match self.taint_lost {
+                // one deviation seen three ways: a room (and its slot) stays locked for nobody
+                Some(t) => format!("lost-lock:{}", t),
+                None => match kind {
+                    Kind::Starvation => "starvation:pending-request-never-granted".to_string(),
+                    Kind::ProbeUnder => "slot-leak:fewer-rooms-at-once-than-limit".to_string(),
+                    _ => "room-stuck:free-room-never-granted".to_string(),
+                },
+            },
             Kind::GrantWithoutRequest => "grant-without-pending-request".to_string(),
         }
     }
